@@ -98,6 +98,157 @@ extern "C" {
     fn __errno_location() -> *mut i32;
 }
 
+// ---- hostile readers: what a call returns must not depend on what the reader of *another* call did -------------
+
+const HDIRS: [&str; 3] = ["/tzmon-d1", "/tzmon-d2", "/tzmon-d3"];
+const HVALUES: [&str; 8] = ["Zone/A", ":Zone/AB", "abcdef", "CET-1", "EST5EDT,M3.2.0,M11.1.0", "localtime", ":abc", "Alias/xx"];
+
+fn panicking_reader(_path: &str) -> Result<Vec<u8>, Box<dyn std::error::Error + Send + Sync + 'static>> {
+    panic!("tzmon: reader of a hostile caller panics")
+}
+
+/// a reader that itself resolves a TZ value through other settings (an alias table, a reader that maps names)
+fn reentrant_reader(path: &str) -> Result<Vec<u8>, Box<dyn std::error::Error + Send + Sync + 'static>> {
+    if path.ends_with("Alias/xx") {
+        let inner = TimeZoneSettings::new(&HDIRS, path_monitoring_reader).parse_posix_tz(":Zone/A")?;
+        return Ok(crate::mon::c20::valid_file(inner.as_ref().local_time_types()[0].ut_offset() + 7));
+    }
+    path_monitoring_reader(path)
+}
+
+static GATE: (std::sync::Mutex<bool>, std::sync::Condvar) = (std::sync::Mutex::new(false), std::sync::Condvar::new());
+
+/// a reader that returns only after another thread's (unrelated) lookup has completed
+fn waiting_reader(path: &str) -> Result<Vec<u8>, Box<dyn std::error::Error + Send + Sync + 'static>> {
+    if path.starts_with("/tzmon-d1/") {
+        let mut g = GATE.0.lock().unwrap_or_else(|e| e.into_inner());
+        while !*g {
+            g = GATE.1.wait(g).unwrap_or_else(|e| e.into_inner());
+        }
+    }
+    path_monitoring_reader(path)
+}
+
+type Reader = fn(&str) -> Result<Vec<u8>, Box<dyn std::error::Error + Send + Sync + 'static>>;
+
+/// digest of a fixed list of resolutions through fresh settings with `reader`
+fn lookups_digest(reader: Reader) -> u64 {
+    let mut h = Fnv::new();
+    let settings = TimeZoneSettings::new(&HDIRS, reader);
+    for v in HVALUES {
+        h = match settings.parse_posix_tz(v) {
+            Ok(z) => h.i(z.as_ref().local_time_types()[0].ut_offset() as i64).i(z.as_ref().local_time_types().len() as i64),
+            Err(e) => h.i(-1).i(matches!(e, tz::Error::Io(_)) as i64),
+        };
+    }
+    h.get()
+}
+
+/// Runs `f` on a new thread and waits for it. Returns `None` when the participants are *deadlocked*: the thread
+/// (and every helper thread it reports) is asleep and none of them has consumed CPU time over 24 consecutive
+/// samples 0.5 s apart. A thread that is merely slow on a loaded machine is runnable, not asleep, so wall-clock
+/// time alone never produces this verdict. The stuck threads are left behind (the process ends soon after).
+fn run_or_deadlock<T: Send + 'static>(f: impl FnOnce(&std::sync::mpsc::Sender<u64>) -> T + Send + 'static) -> Option<T> {
+    let (tid_tx, tid_rx) = std::sync::mpsc::channel::<u64>();
+    let (res_tx, res_rx) = std::sync::mpsc::channel::<T>();
+    std::thread::spawn(move || {
+        let _ = tid_tx.send(crate::util::cpu::gettid());
+        let r = f(&tid_tx);
+        let _ = res_tx.send(r);
+    });
+    let mut tids: Vec<u64> = vec![];
+    let mut last: Vec<u64> = vec![];
+    let mut quiet = 0;
+    loop {
+        match res_rx.recv_timeout(std::time::Duration::from_millis(500)) {
+            Ok(r) => return Some(r),
+            Err(std::sync::mpsc::RecvTimeoutError::Disconnected) => return None,
+            Err(_) => {}
+        }
+        while let Ok(t) = tid_rx.try_recv() {
+            tids.push(t);
+        }
+        let states: Vec<(char, u64)> = tids.iter().filter_map(|&t| crate::util::cpu::state_of_tid(t)).collect();
+        let cpu: Vec<u64> = states.iter().map(|s| s.1).collect();
+        let asleep = !states.is_empty() && states.iter().all(|s| s.0 == 'S');
+        if asleep && cpu == last {
+            quiet += 1;
+        } else {
+            quiet = 0;
+        }
+        last = cpu;
+        if quiet >= 24 {
+            return None;
+        }
+    }
+}
+
+/// the scenarios; every verdict is about calls whose own settings and readers are well behaved
+fn hostile_readers(l: &mut Local) {
+    use std::panic::{catch_unwind, AssertUnwindSafe};
+    let base = lookups_digest(path_monitoring_reader);
+    if !cfg!(miri) {
+        // B. a reader that itself resolves a TZ value (through its own settings)
+        let expect_b = {
+            // what the nested resolution yields when done by hand
+            let inner = TimeZoneSettings::new(&HDIRS, path_monitoring_reader).parse_posix_tz(":Zone/A").map(|z| z.as_ref().local_time_types()[0].ut_offset()).unwrap_or(-1);
+            inner + 7
+        };
+        match run_or_deadlock(|_| TimeZoneSettings::new(&HDIRS, reentrant_reader).parse_posix_tz(":Alias/xx").map(|z| z.as_ref().local_time_types()[0].ut_offset()).unwrap_or(-2)) {
+            Some(v) if v == expect_b => l.class("reentrant_reader_completed"),
+            Some(v) => l.violation("ambient state: a resolution nested in a reader returns something else", "reader resolving ':Zone/A' while ':Alias/xx' is being resolved".into(), format!("offset {}", expect_b), format!("offset {}", v)),
+            None => {
+                l.violation("ambient state: a reader that itself resolves a TZ value never returns (deadlock: all participating threads asleep, no CPU time consumed for 12 s)", "reader resolving ':Zone/A' while ':Alias/xx' is being resolved".into(), "both resolutions complete".into(), "deadlock".into());
+                return; // the stuck thread may hold whatever it waits on: nothing after it can be judged
+            }
+        }
+        l.op_n("nested resolutions", 2);
+        // C. thread 1's reader waits until thread 2's unrelated resolution has completed
+        *GATE.0.lock().unwrap_or_else(|e| e.into_inner()) = false;
+        let r = run_or_deadlock(|tids| {
+            let tids2 = tids.clone();
+            let t2 = std::thread::spawn(move || {
+                let _ = tids2.send(crate::util::cpu::gettid());
+                // give thread 1 the time to enter its reader, then resolve something unrelated and open the gate
+                std::thread::sleep(std::time::Duration::from_millis(100));
+                let d = lookups_digest(path_monitoring_reader);
+                *GATE.0.lock().unwrap_or_else(|e| e.into_inner()) = true;
+                GATE.1.notify_all();
+                d
+            });
+            let d1 = lookups_digest(waiting_reader);
+            (d1, t2.join().unwrap_or(0))
+        });
+        // open the gate in any case so that a stuck reader does not outlive the scenario needlessly
+        *GATE.0.lock().unwrap_or_else(|e| e.into_inner()) = true;
+        GATE.1.notify_all();
+        match r {
+            Some((d1, d2)) if d1 == base && d2 == base => l.class("readers_waiting_for_each_other_completed"),
+            Some((d1, d2)) => l.violation("thread safety: results differ when one thread's reader waits for another thread's resolution", "two threads, reader of the first waits for the second".into(), format!("digest {:016x} twice", base), format!("digests {:016x} {:016x}", d1, d2)),
+            None => {
+                l.violation("thread safety: a resolution blocks while another thread's reader is running (deadlock: all participating threads asleep, no CPU time consumed for 12 s)", "two threads, reader of the first waits for the second thread's unrelated resolution".into(), "both complete".into(), "deadlock".into());
+                return;
+            }
+        }
+        l.op_n("resolutions with readers waiting for each other", 2 * HVALUES.len() as u64);
+    }
+    // A (last: a poisoned lock would spoil the other scenarios). another caller's reader panics (its panic is that caller's business); afterwards every other call must
+    //    behave as before, on this thread and on a new one
+    let r = catch_unwind(AssertUnwindSafe(|| TimeZoneSettings::new(&HDIRS, panicking_reader).parse_posix_tz("Zone/A").is_ok()));
+    let _ = crate::core::take_panic_msg();
+    l.class(if r.is_err() { "reader_panic_propagated" } else { "reader_panic_absorbed" });
+    let after_here = catch_unwind(AssertUnwindSafe(|| lookups_digest(path_monitoring_reader)));
+    let after_there = std::thread::spawn(|| catch_unwind(|| lookups_digest(path_monitoring_reader))).join().unwrap_or(Err(Box::new("join")));
+    for (where_, d) in [("the same thread", after_here), ("another thread", after_there)] {
+        l.op_n("resolutions after a panicking reader", HVALUES.len() as u64);
+        match d {
+            Ok(d) if d == base => l.class("unchanged_after_a_panicking_reader"),
+            Ok(d) => l.violation("ambient state: results change after an unrelated call whose reader panicked", format!("8 TZ values resolved on {} after a panicking reader elsewhere", where_), format!("digest {:016x}", base), format!("digest {:016x}", d)),
+            Err(_) => l.violation("ambient state: calls fail after an unrelated call whose reader panicked", format!("8 TZ values resolved on {} after a panicking reader elsewhere", where_), format!("digest {:016x}", base), format!("panic: {}", crate::core::take_panic_msg())),
+        }
+    }
+}
+
 /// Overwrites the calling thread's `errno` (ambient thread-local state every failing system call writes): no
 /// result of tz-rs may depend on it.
 fn poison_errno(v: i32) {
@@ -307,7 +458,11 @@ pub fn run(ctx: &Ctx) -> Report {
     rep.rule = "cases = (operation sequence, thread count, schedule seed): sequences mixing parse (file and TZ string; injected reader and the default settings on the real file system: TimeZone::local, TimeZone::from_posix_tz), the clock readers (now, find_current_local_time_type), construct, lookup, from_timespec, find, find_n, format on shared zones (Arc<TimeZone> of vendored files and generated zones, a leaked &'static zone, the const UTC zone) and private values; each sequence's digest when run by one of N threads (N in 2, 4, 8, 16; start barrier; random yields / spins between calls; the thread's errno overwritten with EPERM / ENOENT / EACCES / ... before every call) must equal its digest when run alone (errno 0). The injected reader serves a virtual file system with files in the second directory only and monitors the paths it is handed. \
                 distinct_nontrivial = distinct (sequence, thread count, round) executions whose sequence touches a shared zone."
         .into();
-    rep.required_classes = vec!["threads_2", "threads_4", "threads_8", "threads_16", "shared_zone_ops", "private_value_ops", "parse_ops", "reader_saw_absolute_paths_only", "default_settings_ops_(real_file_system)", "clock_ops"];
+    rep.required_classes = vec!["threads_2", "threads_4", "threads_8", "threads_16", "shared_zone_ops", "private_value_ops", "parse_ops", "reader_saw_absolute_paths_only", "default_settings_ops_(real_file_system)", "clock_ops", "unchanged_after_a_panicking_reader"];
+    if !cfg!(miri) {
+        rep.required_classes.push("reentrant_reader_completed");
+        rep.required_classes.push("readers_waiting_for_each_other_completed");
+    }
     let (_paths, blobs) = match load_corpus(&ctx.corpus) {
         Ok(x) => x,
         Err(e) => {
@@ -431,6 +586,8 @@ pub fn run(ctx: &Ctx) -> Report {
     }
     mark(false);
     facade::flush_thread();
+    // outside the window (the deadlock detector reads procfs)
+    hostile_readers(&mut l);
     // digest of everything the workload computed: must not depend on TZ, TZDIR, LANG or the working directory
     rep.extra.insert("workload_digest".into(), Json::Str(format!("{:016x}", all.get())));
     rep.merge(l);
